@@ -329,23 +329,33 @@ func (l *log) GetByTime(start time.Time) (message.Message, error) {
 	l.readersMu.RLock()
 	defer l.readersMu.RUnlock()
 
+	// set when the segment after the current one had no messages when it was looked at
+	nextEmpty := false
 	for i := len(l.readers) - 1; i >= 0; i-- {
 		rdr := l.readers[i]
 
 		switch msg, err := rdr.GetByTime(ts, tctx); err {
 		case nil:
 			return msg, nil
+		case index.ErrTimeIndexEmpty:
+			// an empty segment (the head, after its newest messages were deleted), try the rest
+			if i == 0 {
+				return message.Invalid, err
+			}
+			nextEmpty = true
 		case index.ErrTimeBeforeStart:
 			// not in this segment, try the rest
 			if i == 0 {
 				return rdr.Get(message.OffsetOldest)
 			}
+			nextEmpty = false
 		case index.ErrTimeAfterEnd:
 			// time is between end of this and begin next
-			if i < len(l.readers)-1 {
+			if i < len(l.readers)-1 && !nextEmpty {
 				nextRdr := l.readers[i+1]
 				return nextRdr.Get(message.OffsetOldest)
 			}
+			// nothing (was) after this segment, so nothing is after this time
 			return message.Invalid, errTimeNotFound
 		default:
 			return message.Invalid, err
